@@ -36,7 +36,7 @@ def dispatch (line : String) : String :=
     else if cmd = "p20" then Proto20.handle ws
     else if cmd = "mc" then MC.handle ws
     else if cmd = "seed" || cmd = "seedrt" || cmd = "seedrun" then Seed.handle ws
-    else if cmd = "yield" || cmd = "step" || cmd = "addmoves" || cmd = "rng" then Sched.handle ws
+    else if cmd = "yield" || cmd = "step" || cmd = "addmoves" || cmd = "rng" || cmd = "defcycles" then Sched.handle ws
     else if cmd = "verlet" || cmd = "mbdist" || cmd = "hmove" || cmd = "hcomp" then Verlet.IO.handle ws
     else if cmd = "cadj" || cmd = "fixrot" || cmd = "c12trial" then Constr.IO.handle ws
     else if cmd.startsWith "c08." || cmd.startsWith "c07." then Ser.IO.handle ws
